@@ -39,9 +39,13 @@ func (m *Model) PullAirQuality(ctx context.Context, opts ...resource.ReadOption)
 		defer close(send)
 		for change := range recv {
 			value := change.Value.(*traits.AirQuality)
-			send <- PullAirQualityChange{
+			select {
+			case <-ctx.Done():
+				return
+			case send <- PullAirQualityChange{
 				Value:      value,
 				ChangeTime: change.ChangeTime,
+			}:
 			}
 		}
 	}()
